@@ -3,13 +3,15 @@
    Case layouts (first token = tag, written with Int, i.e. zigzag):
    1 TRUNC : procs frames runs     run = k_lo k_hi objs outcome ; the runs partition 0..size:
              the observation of EVERY cut offset (consecutive equal observations merged)
-   2 DAMAGE: frames damaged_frame obs*    obs = procs objs outcome
+   2 DAMAGE: frames damaged_frame obs* has_tree [tree]    obs = procs objs outcome; for in-block
+             damage the block's message tree follows (code 4: the L1 model does not say Err on it)
    3 WHOLE : frames obs*                  a complete valid file
    outcome: 0 Err()=nil, 1 Err()<>nil, 2 process crashed, 3 hang.
    codes: 1 = model <> implementation, 2 = property oracle fails on the observation,
           3 = the runs do not partition 0..size, 0 = case does not parse. *)
 From Coq Require Import ZArith List Bool.
 From Verif Require Import Base.Wire Framing.Model Framing.Valid Framing.WireFrames C06.Spec.
+From Verif Require Pbf.Tree Pbf.Model Pbf.CheckLib.
 Import ListNotations.
 Open Scope Z_scope.
 Open Scope wire_scope.
@@ -63,8 +65,17 @@ Definition check_trunc : P (list Z) :=
 Definition pobs : P (Z * list obj * Z) :=
   procs <- pint ;; objs <- pobjs ;; oc <- pint ;; ret (procs, objs, oc).
 
+(* the layer-L1 model of the block decoder run on the damaged block's tree: it must say Err *)
+Definition l1_err (t : Verif.Pbf.Tree.msg) : bool :=
+  match Verif.Pbf.Model.scan_result Verif.Pbf.Model.cfg_all Verif.Pbf.Model.dstate0 t with
+  | Verif.Pbf.Tree.Err _ => true
+  | _ => false
+  end.
+
 Definition check_damage : P (list Z) :=
   fs <- pframes ;; di <- pnat ;; obs <- plist pobs ;;
+  has_tree <- pbool ;;
+  j4 <- (if has_tree then (t <- Verif.Pbf.CheckLib.ptree ;; ret (l1_err t)) else ret true) ;;
   let r := scan current fs (total_size fs) in
   let expected := objs_of (firstn di fs) in
   let j1 := forallb (fun '(_, objs, oc) => agrees r objs oc) obs in
@@ -80,7 +91,7 @@ Definition check_damage : P (list Z) :=
     end in
   let j2 := forallb (fun '(_, objs, oc) => (oc =? 1) && objs_eqb objs expected) obs
             && in_domain && negb (Nat.eqb (length obs) 0) in
-  ret (code_if j1 1 ++ code_if j2 2)%list.
+  ret (code_if j1 1 ++ code_if j2 2 ++ code_if j4 4)%list.
 
 (* 3 WHOLE: frames obs*  -- a complete VALID file (boundary values of the limits): every
    object, no error; the frames must satisfy the theorems' hypothesis [valid_file] *)
